@@ -59,6 +59,25 @@ func byteSliceOrigins(c *core.Ctx, f *ssa.Function, memo map[*ssa.Function]map[s
 			} else {
 				out["fresh"] = true
 			}
+		case *ssa.FieldAddr:
+			// the address of a field (e.g. a bytes.Buffer kept in the receiver) handed to a call
+			root := x.X
+			for {
+				if fa, ok := root.(*ssa.FieldAddr); ok {
+					root = fa.X
+					continue
+				}
+				break
+			}
+			if r, ok := root.(*ssa.Parameter); ok && f.Signature.Recv() != nil && r == f.Params[0] {
+				out["state:"+core.TypeLabel(r.Type())+"."+core.FieldOf(x).Name()] = true
+			} else if _, ok := root.(*ssa.Alloc); ok {
+				out["fresh"] = true
+			} else if g, ok := root.(*ssa.Global); ok {
+				out["state:"+g.Name()] = true
+			} else {
+				out["unknown:field address"] = true
+			}
 		case *ssa.UnOp:
 			// load
 			switch a := x.X.(type) {
